@@ -11,7 +11,7 @@ import (
 
 func init() {
 	register("C29", propMeta{
-		Explanation: "Every type-switch case of btree.Compare and every closure returned by btree.CoerceComparer is reduced to its shape and checked: both operands are asserted to the case's own type (first parameter -> x, second -> y); scalar cases return exactly one whitelisted total order applied to (x, y) in that argument order (cmp.Compare, bytes.Compare on the full byte ranges, sop.UUID.Compare = bytes.Compare, time.Time.Compare); slice cases have the lexicographic shape (element comparison, by a whitelisted order or the recursive Compare, over indexes below min(len x, len y), first non-zero result returned, then cmp.Compare(len x, len y)). The order axioms (reflexive, antisymmetric, transitive, consistent with the natural order) follow because each whitelisted function is a total order on its type (cmp.Compare orders NaN below all numbers and treats NaN==NaN, -0==+0) and total orders are closed under lexicographic product; that argument is fixed, the instances are re-checked on every run. (R2) the case sets of Compare, CoerceComparer and IsPrimitive coincide (except []any, which IsPrimitive omits).",
+		Explanation:  "Every type-switch case of btree.Compare and every closure returned by btree.CoerceComparer is reduced to its shape and checked: both operands are asserted to the case's own type (first parameter -> x, second -> y); scalar cases return exactly one whitelisted total order applied to (x, y) in that argument order (cmp.Compare, bytes.Compare on the full byte ranges, sop.UUID.Compare = bytes.Compare, time.Time.Compare); slice cases have the lexicographic shape (element comparison, by a whitelisted order or the recursive Compare, over indexes below min(len x, len y), first non-zero result returned, then cmp.Compare(len x, len y)). The order axioms (reflexive, antisymmetric, transitive, consistent with the natural order) follow because each whitelisted function is a total order on its type (cmp.Compare orders NaN below all numbers and treats NaN==NaN, -0==+0) and total orders are closed under lexicographic product; that argument is fixed, the instances are re-checked on every run. (R2) the case sets of Compare, CoerceComparer and IsPrimitive coincide (except []any, which IsPrimitive omits).",
 		DoesNotCover: "Operands of different dynamic types (excluded by the property), user-supplied Comparer implementations, and the default branch's string fallback.",
 	}, runC29)
 }
@@ -128,6 +128,32 @@ func analyseComparerBody(w *World, f *Func, stmts []ast.Stmt, xp, yp types.Objec
 		}
 		if !derives(a, x1) || derives(a, y1) || !derives(b, y1) || derives(b, x1) {
 			return key, false
+		}
+		// the operands must be the asserted values themselves (or an element / the full range of
+		// them, or a width-preserving conversion): a projection such as x.UnixNano(), x.String() or
+		// x.Unix() is in general neither injective nor monotone, so ordering by it does not agree
+		// with the type's natural order
+		var plain func(e ast.Expr, o types.Object) bool
+		plain = func(e ast.Expr, o types.Object) bool {
+			switch x := ast.Unparen(e).(type) {
+			case *ast.Ident:
+				return info.Uses[x] == o
+			case *ast.IndexExpr:
+				return plain(x.X, o)
+			case *ast.SliceExpr:
+				return x.Low == nil && x.High == nil && x.Max == nil && plain(x.X, o)
+			case *ast.CallExpr:
+				if tv, ok := info.Types[x.Fun]; ok && tv.IsType() && len(x.Args) == 1 {
+					from, to := info.Types[x.Args[0]].Type, tv.Type
+					if from != nil && types.Identical(from.Underlying(), to.Underlying()) {
+						return plain(x.Args[0], o)
+					}
+				}
+			}
+			return false
+		}
+		if !plain(a, x1) || !plain(b, y1) {
+			return key + " applied to a projection of the operands", false
 		}
 		if elementwise {
 			// x1[i], y1[i] with the same index expression
